@@ -26,11 +26,13 @@ const (
 	f1 = "% Invalid input"
 	f2 = "Error: bad"
 	f3 = "never-occurs"
+	f4 = "ERR:"
+	f5 = "a failure string that is longer than the shortest outputs" // never occurs
 )
 
-var outs = []string{"all fine", "x " + f1 + " detected", "y " + f2 + " value", f2 + " and\n" + f1 + " both"}
+var outs = []string{"all fine", "x " + f1 + " detected", "y " + f2 + " value", f2 + " and\n" + f1 + " both", f4 + " no"}
 
-var drvLists = [][]string{nil, {f1}, {f1, f2}}
+var drvLists = [][]string{nil, {f1}, {f1, f2}, {f5, f4, f1}}
 var opLists = [][]string{nil, {f2}, {f3}}
 var apis = []string{"generic.SendCommand", "generic.SendCommands", "generic.SendCommandsFromFile", "network.SendCommands", "network.SendConfigs", "network.SendConfig", "network.SendConfigsFromFile"}
 
@@ -57,10 +59,11 @@ type sess struct {
 	dl   int
 	ol   int
 	stop bool
+	dup  bool // commands are named after their output: equal outputs come from equal inputs
 }
 
 func (s sess) String() string {
-	return fmt.Sprintf("%s asg=%v drv=%v op=%v stop=%v", s.api, s.asg, drvLists[s.dl], opLists[s.ol], s.stop)
+	return fmt.Sprintf("%s asg=%v drv=%v op=%v stop=%v dup=%v", s.api, s.asg, drvLists[s.dl], opLists[s.ol], s.stop, s.dup)
 }
 
 func runSession(w *sched.W, s sess, dir string) {
@@ -68,6 +71,9 @@ func runSession(w *sched.W, s sess, dir string) {
 	cmds := make([]string, n)
 	for i := range cmds {
 		cmds[i] = fmt.Sprintf("cmd%d", i)
+		if s.dup {
+			cmds[i] = fmt.Sprintf("cmdo%d", s.asg[i])
+		}
 	}
 	cfg := cm.Cfg()
 	cfg.NoPreAlt, cfg.NoIdleAlt = true, true
@@ -131,6 +137,13 @@ func runSession(w *sched.W, s sess, dir string) {
 				return
 			}
 			file := filepath.Join(dir, fmt.Sprintf("cmds-%d", n))
+			if s.dup {
+				file = filepath.Join(dir, "cmds-dup")
+				if werr := os.WriteFile(file, []byte(strings.Join(cmds, "\n")+"\n"), 0o644); werr != nil {
+					setupErr = werr
+					return
+				}
+			}
 			switch s.api {
 			case "generic.SendCommand":
 				single, err = g.SendCommand(cmds[0], opo...)
@@ -258,10 +271,15 @@ func scenario(api string, n int) sched.Scenario {
 				for dl := range drvLists {
 					for ol := range opLists {
 						for _, stop := range []bool{false, true} {
-							if r := w.Replaying(); r != nil && r.Case != (sess{api, asg, dl, ol, stop}).String() {
-								continue
+							for _, dup := range []bool{false, true} {
+								if dup && (n < 2 || n > 3) {
+									continue
+								}
+								if r := w.Replaying(); r != nil && r.Case != (sess{api, asg, dl, ol, stop, dup}).String() {
+									continue
+								}
+								runSession(w, sess{api, append([]int{}, asg...), dl, ol, stop, dup}, dir)
 							}
-							runSession(w, sess{api, append([]int{}, asg...), dl, ol, stop}, dir)
 						}
 					}
 				}
@@ -297,7 +315,7 @@ func TestCheck(t *testing.T) {
 	sched.Main(t, sched.Check{
 		ID:          "C13",
 		Level:       "exploration",
-		Rule:        "exhaustive product: API (generic SendCommand/SendCommands/SendCommandsFromFile, network SendCommands/SendConfigs/SendConfig/SendConfigsFromFile) x command lists of length 1..4 (5 thorough) x per-command output in {clean, contains F1, contains F2, contains both} x driver-level list {none,[F1],[F1,F2]} x operation-level list {none,[F2],[F3 never occurring]} x stop-on-failed; each cell is a real session over the CLI device model (which logs what it receives), 0 schedule deviations; oracle = reference rule of the property; distinct = distinct cells",
+		Rule:        "exhaustive product: API (generic SendCommand/SendCommands/SendCommandsFromFile, network SendCommands/SendConfigs/SendConfig/SendConfigsFromFile) x command lists of length 1..4 (5 thorough) x per-command output in {clean, contains F1, contains F2, contains both, short with F4} x {distinct commands, equal commands for equal outputs (n=2,3)} x driver-level list {none,[F1],[F1,F2],[long never-occurring, F4, F1]} x operation-level list {none,[F2],[F3 never occurring]} x stop-on-failed; each cell is a real session over the CLI device model (which logs what it receives), 0 schedule deviations; oracle = reference rule of the property; distinct = distinct cells",
 		Assumptions: []string{"no schedule dimension in the property: whole-buffer reads, default schedule"},
 		Scenarios:   scenarios,
 		Budget:      map[string]time.Duration{"quick": 4 * time.Minute, "thorough": 30 * time.Minute},
